@@ -3,7 +3,7 @@
     (index out of bounds, unwrap on None, subtraction underflow, "symbol type mismatch", the
     explicit panic!s).  Termination: LR/Termination.v. *)
 From Coq Require Import List ZArith.
-From LV Require Import LR.Driver LR.Validator LR.Safety LR.Soundness LR.Completeness LR.Locality LR.NoPanic LR.Termination LR.Main.
+From LV Require Import LR.Driver LR.Validator LR.Safety LR.Soundness LR.Completeness LR.Locality LR.NoPanic LR.Termination LR.RecoverySound LR.NoPanicRec LR.Main.
 From LV Require Import Lex.Regex Lex.LexModel Lex.LexProps.
 Import ListNotations.
 
@@ -59,7 +59,7 @@ Print Assumptions C08_answers_do_not_depend_on_the_budget.
     list all end.  The validator's [terminates] certificate is what carries the argument. *)
 Theorem C08_parser_terminates_on_every_input : forall A C,
   shape A C = true -> exact A C = true -> terminates A C = true -> uses_recovery A = false ->
-  forall orc input, Forall (item_ok A) input ->
+  forall orc input, Forall (Soundness.item_ok A) input ->
   exists n, forall fuel, n <= fuel -> fst (drive A orc fuel input) <> RFuel.
 Proof. exact parser_terminates. Qed.
 Print Assumptions C08_parser_terminates_on_every_input.
@@ -78,3 +78,15 @@ Theorem C08_accepts_is_bounded : forall A C,
   forall l a f, SLinked A C l -> la_ok A a -> bound A C (length l) <= f -> accepts A f l a <> AFuel.
 Proof. exact accepts_bounded. Qed.
 Print Assumptions C08_accepts_is_bounded.
+
+(** panic freedom with error recovery: on validated tables, with or without `!`, no input drives the
+    parser into a panic site -- including those of Parser::error_recovery (the reductions under the
+    error lookahead, table lookups and the accepts simulation while scanning for a recovery state, the
+    lookup of the error action on the kept stack, "cannot find token at EOF") *)
+Theorem C08_parser_never_panics_with_recovery : forall A C,
+  shape A C = true -> exact A C = true ->
+  forall orc fuel w r s,
+  Forall (fun k => match tk_idx k with Some t => t < tn_term A | None => True end) w ->
+  drive A orc fuel (map IOk w) = (r, s) -> r <> RPanic.
+Proof. exact no_panic_with_recovery. Qed.
+Print Assumptions C08_parser_never_panics_with_recovery.
